@@ -163,8 +163,15 @@ def source_problem(a):
     return None
 
 
+_DATASET_OBJ = None  # one-shot: the next dataset() call returns this existing object (copies family: laws on a snapshot)
+
+
 def dataset(a):
-    global _LAST_SOURCE
+    global _LAST_SOURCE, _DATASET_OBJ
+    if _DATASET_OBJ is not None:
+        d, _DATASET_OBJ = _DATASET_OBJ, None
+        _LAST_SOURCE = None
+        return d
     if _DATASET_CLS is not None:
         Dataset = _DATASET_CLS
     else:
@@ -1516,6 +1523,270 @@ def spelling_item(item, seed=0):
     return t
 
 
+# ============================================================================= COPIES and RE-ENTRANT families
+# COPIES: snapshot (copy.copy / copy.deepcopy / pickle round trip / ds.copy()) taken BEFORE an operation; the operation is applied to the
+# original (and, separately, to the snapshot); the OTHER object must be bit-identical to what it was (array, dtype, shape, origin,
+# sampling, units) and must still obey the conservation laws when an operation is applied to it afterwards (judged by the lattice oracles).
+# RE-ENTRANT: a user subclass overriding the documented hook `_copy_custom_attributes` so that the hook runs an operation on the source
+# while the outer (copying) operation is in progress: inner and outer results equal the results of the two calls made one after the
+# other, the source is unchanged; a hook that raises leaves the source unchanged; a two-thread variant pins the interleaving with
+# threading.Event inside the hook (thread A parked in the hook, thread B runs one full operation on the same dataset, A resumes).
+COPY_KINDS = ["copy.copy", "copy.deepcopy", "pickle", "ds.copy()"]
+
+
+def ds_state(d):
+    arr = np.asarray(d.array)
+    return (arr.shape, str(arr.dtype), arr.tobytes(), np.asarray(d.origin, dtype=np.float64).tobytes(), np.asarray(d.sampling, dtype=np.float64).tobytes(), tuple(d.units))
+
+
+def make_copy(d, kind):
+    import copy
+    import pickle
+
+    if kind == "copy.copy":
+        return copy.copy(d)
+    if kind == "copy.deepcopy":
+        return copy.deepcopy(d)
+    if kind == "pickle":
+        return pickle.loads(pickle.dumps(d))
+    return d.copy()
+
+
+def first_ops(shape):
+    nd = len(shape)
+    ops = []
+    for mode in MODES:
+        ip = mode == "inplace"
+        ops.append((f"bin(2, modify_in_place={ip})", lambda d, ip=ip: d.bin(2, modify_in_place=ip)))
+        ops.append((f"bin(2, axes=(0,), reducer='mean', modify_in_place={ip})", lambda d, ip=ip: d.bin(2, axes=(0,), reducer="mean", modify_in_place=ip)))
+        ops.append((f"fourier_resample(out_shape={tuple(n + 1 for n in shape)}, modify_in_place={ip})", lambda d, ip=ip: d.fourier_resample(out_shape=tuple(n + 1 for n in shape), modify_in_place=ip)))
+        ops.append((f"pad(output_shape={tuple(n + 3 for n in shape)}, modify_in_place={ip})", lambda d, ip=ip: d.pad(output_shape=tuple(n + 3 for n in shape), modify_in_place=ip)))
+        ops.append((f"crop({((1, 0),) * nd}, modify_in_place={ip})", lambda d, ip=ip: d.crop(((1, 0),) * nd, modify_in_place=ip)))
+    return ops
+
+
+def follow_ups(shape, dtype):
+    nd = len(shape)
+    return [
+        {"op": "bin", "shape": list(shape), "dtype": dtype, "axes": list(range(nd)), "factors": [2] * nd, "reducer": "sum", "mode": "copy", "spelling": "tuple"},
+        {"op": "bin", "shape": list(shape), "dtype": dtype, "axes": [nd - 1], "factors": [2], "reducer": "mean", "mode": "inplace", "spelling": "tuple"},
+        {"op": "resample", "part": "copies", "shape": list(shape), "dtype": dtype, "axes": list(range(nd)), "out": [n + 2 for n in shape], "form": "out_shape", "spelling": "tuple", "mode": "copy"},
+        {"op": "pad", "shape": list(shape), "dtype": dtype, "pad_kind": "output_shape", "widths": [list(widths_for(3)) for _ in shape], "mode": "copy", "crop_style": "all"},
+    ]
+
+
+def copies_item(item, seed=0):
+    global _DATASET_OBJ
+    shape, dtype = tuple(item[0]), item[1]
+    a = make_array(shape, dtype, seed, tag=10)
+    t = Tally()
+    with FreshModule():
+        pass
+    for kind in COPY_KINDS:
+        for opname, op in first_ops(shape):
+            for target in ("original", "copy"):
+                for fu in follow_ups(shape, dtype):
+                    d = dataset(a)
+                    try:
+                        snap = make_copy(d, kind)
+                    except Exception as e:
+                        t.extra["copies_copy_kind_rejected:" + kind] += 1
+                        t.case(key=None, nontrivial=False, outcome=("copies", kind, "rejected", type(e).__name__))
+                        continue
+                    acted, other = (d, snap) if target == "original" else (snap, d)
+                    before = ds_state(other)
+                    case = {"op": "copies", "shape": list(shape), "dtype": dtype, "copy_kind": kind, "first_op": opname, "applied_to": target, "follow_up": fu}
+                    cls = {"op": "copies", "relation": None, "copy_kind": kind, "applied_to": target}
+                    shown = f"{dtype}{shape}: snapshot by {kind}, then {opname} on the {target}"
+                    t.extra["copies_points"] += 1
+                    try:
+                        with warnings.catch_warnings():
+                            warnings.simplefilter("ignore")
+                            op(acted)
+                    except Exception as e:
+                        t.fail(dict(cls, relation="raises"), case, f"{shown}: raised {type(e).__name__}: {e}")
+                        t.case(key=None, nontrivial=False, outcome=("copies", "raised"))
+                        continue
+                    probs = []
+                    if ds_state(other) != before:
+                        now = ds_state(other)
+                        what = [n for n, x, y in zip(("shape", "dtype", "array", "origin", "sampling", "units"), before, now) if x != y]
+                        probs.append(("other_object_untouched", f"the {'copy' if target == 'original' else 'original'} changed: {', '.join(what)} differ (shape {np.asarray(other.array).shape}, origin {[float(x) for x in other.origin]}, sampling {[float(x) for x in other.sampling]})"))
+                    # the other object still obeys the laws
+                    _DATASET_OBJ = other
+                    try:
+                        st, pr, info = do_call_on(fu, a)
+                    finally:
+                        _DATASET_OBJ = None
+                    pr = [q for q in pr if q[0] != "copy_leaves_source"] + [q for q in pr if q[0] == "copy_leaves_source"]
+                    if pr:
+                        probs.append(("laws_hold_on_the_other_object", f"then {call_text(fu)} on the {'copy' if target == 'original' else 'original'}: {pr[0][0]}: {pr[0][1]}"))
+                    for rel, msg in probs:
+                        t.fail(dict(cls, relation=rel), dict(case, relation=rel), f"{shown}: {msg}")
+                    t.case(key=("copies", shape, dtype, kind, opname, target, json_key(fu)), nontrivial=True, outcome=("copies", kind, opname, target, fu["op"], tuple(r for r, _ in probs)))
+    return t
+
+
+REENTRANT_OPS = ["bin_all", "bin_axis0_mean", "resample", "pad", "crop"]
+
+
+def reentrant_op(name, shape):
+    nd = len(shape)
+    if name == "bin_all":
+        return lambda d: d.bin(2)
+    if name == "bin_axis0_mean":
+        return lambda d: d.bin(2, axes=(0,), reducer="mean")
+    if name == "resample":
+        return lambda d: d.fourier_resample(out_shape=tuple(n + 1 for n in shape))
+    if name == "pad":
+        return lambda d: d.pad(output_shape=tuple(n + 3 for n in shape))
+    if name == "crop":
+        return lambda d: d.crop(((1, 0),) * nd)
+    raise ValueError(name)
+
+
+def reentrant_item(item, seed=0):
+    import threading
+
+    shape, dtype = tuple(item[0]), item[1]
+    a = make_array(shape, dtype, seed, tag=11)
+    origin, sampling, units = meta(len(shape))
+    t = Tally()
+    with FreshModule():
+        pass
+    from quantem.core.datastructures import Dataset
+
+    class Hooked(Dataset):
+        """User subclass using the documented hook."""
+
+        _hook = None  # callable(self) run inside _copy_custom_attributes, once (not for the hook's own nested copies)
+        _busy = False
+
+        def _copy_custom_attributes(self, new_dataset):
+            super()._copy_custom_attributes(new_dataset)
+            h = type(self)._hook
+            if h is not None and not type(self)._busy:
+                type(self)._busy = True
+                try:
+                    h(self)
+                finally:
+                    type(self)._busy = False
+
+    def fresh():
+        return Hooked.from_array(a.copy(), origin=list(origin), sampling=list(sampling), units=list(units))
+
+    alone = {}
+    for name in REENTRANT_OPS:
+        Hooked._hook = None
+        src = fresh()
+        alone[name] = ds_state(reentrant_op(name, shape)(src))
+    src0 = ds_state(fresh())
+
+    for outer in REENTRANT_OPS:
+        for inner in REENTRANT_OPS:
+            # ---- single thread: the hook runs the inner operation on the source while the outer one is in progress
+            box = {}
+            Hooked._hook = lambda self, inner=inner: box.__setitem__("inner", ds_state(reentrant_op(inner, shape)(self)))
+            src = fresh()
+            case = {"op": "reentrant", "variant": "hook", "shape": list(shape), "dtype": dtype, "outer": outer, "inner": inner}
+            cls = {"op": "reentrant", "relation": None, "variant": "hook"}
+            shown = f"{dtype}{shape}: subclass hook _copy_custom_attributes runs {inner} on the source during the copying {outer}"
+            t.extra["reentrant_points"] += 1
+            try:
+                with warnings.catch_warnings():
+                    warnings.simplefilter("ignore")
+                    out = ds_state(reentrant_op(outer, shape)(src))
+            except Exception as e:
+                t.fail(dict(cls, relation="raises"), case, f"{shown}: raised {type(e).__name__}: {e}")
+                continue
+            finally:
+                Hooked._hook = None
+            probs = []
+            if "inner" not in box:
+                probs.append(("hook_called", "the hook was not called by the copying operation"))
+            elif box["inner"] != alone[inner]:
+                probs.append(("inner_result_equals_sequential", f"the inner {inner} gave shape {box['inner'][0]} / different data, origin or sampling than the same call made alone (shape {alone[inner][0]})"))
+            if out != alone[outer]:
+                probs.append(("outer_result_equals_sequential", f"the outer {outer} differs from the same call made alone"))
+            if ds_state(src) != src0:
+                probs.append(("source_unchanged", "the source dataset changed"))
+            for rel, msg in probs:
+                t.fail(dict(cls, relation=rel), dict(case, relation=rel), f"{shown}: {msg}")
+            t.case(key=("reentrant", "hook", shape, dtype, outer, inner), nontrivial=True, outcome=("reentrant", "hook", outer, inner, tuple(r for r, _ in probs)))
+
+            # ---- two threads, interleaving pinned: A parked in the hook, B runs the inner operation completely, A resumes
+            parked, go = threading.Event(), threading.Event()
+            res = {}
+            main_id = {}
+
+            def hook(self):
+                if threading.get_ident() == main_id.get("A"):
+                    parked.set()
+                    go.wait(10)
+
+            Hooked._hook = hook
+            src = fresh()
+
+            def run_a():
+                main_id["A"] = threading.get_ident()
+                try:
+                    res["A"] = ds_state(reentrant_op(outer, shape)(src))
+                except Exception as e:
+                    res["A"] = f"raised {type(e).__name__}: {e}"
+
+            th = threading.Thread(target=run_a)
+            th.start()
+            ok = parked.wait(10)
+            try:
+                with warnings.catch_warnings():
+                    warnings.simplefilter("ignore")
+                    Hooked._busy = False  # B's own copy must call (and pass straight through) the hook
+                    res["B"] = ds_state(reentrant_op(inner, shape)(src)) if ok else "thread A never reached the hook"
+            except Exception as e:
+                res["B"] = f"raised {type(e).__name__}: {e}"
+            go.set()
+            th.join(10)
+            Hooked._hook = None
+            Hooked._busy = False
+            case = dict(case, variant="two_threads")
+            cls = {"op": "reentrant", "relation": None, "variant": "two_threads"}
+            shown = f"{dtype}{shape}: thread A parked in the hook of the copying {outer}, thread B runs {inner} on the same dataset, A resumes"
+            t.extra["reentrant_points"] += 1
+            probs = []
+            if res.get("B") != alone[inner]:
+                probs.append(("inner_result_equals_sequential", f"thread B's {inner} " + (res["B"] if isinstance(res.get("B"), str) else f"gave shape {res['B'][0]} / different data, origin or sampling than the same call made alone (shape {alone[inner][0]})")))
+            if res.get("A") != alone[outer]:
+                probs.append(("outer_result_equals_sequential", f"thread A's {outer} " + (res["A"] if isinstance(res.get("A"), str) else "differs from the same call made alone")))
+            if ds_state(src) != src0:
+                probs.append(("source_unchanged", "the source dataset changed"))
+            for rel, msg in probs:
+                t.fail(dict(cls, relation=rel), dict(case, relation=rel), f"{shown}: {msg}")
+            t.case(key=("reentrant", "threads", shape, dtype, outer, inner), nontrivial=True, outcome=("reentrant", "threads", outer, inner, tuple(r for r, _ in probs)))
+
+        # ---- a hook that raises: the source must be what it was
+        def boom(self):
+            raise RuntimeError("user hook failed")
+
+        Hooked._hook = boom
+        src = fresh()
+        raised = False
+        try:
+            reentrant_op(outer, shape)(src)
+        except RuntimeError:
+            raised = True
+        except Exception:
+            raised = True
+        finally:
+            Hooked._hook = None
+            Hooked._busy = False
+        case = {"op": "reentrant", "variant": "raising_hook", "shape": list(shape), "dtype": dtype, "outer": outer, "inner": None}
+        t.extra["reentrant_points"] += 1
+        if ds_state(src) != src0:
+            t.fail({"op": "reentrant", "relation": "source_unchanged", "variant": "raising_hook"}, dict(case, relation="source_unchanged"), f"{dtype}{shape}: the hook raised during the copying {outer} and the source dataset is no longer what it was")
+        t.case(key=("reentrant", "raise", shape, dtype, outer), nontrivial=True, outcome=("reentrant", "raise", outer, raised))
+    return t
+
+
 # ============================================================================= enumeration
 def bin_items(quick):
     items = []
@@ -1618,6 +1889,7 @@ def run(ctx):
         "integer data: |values| <= 1e9 so that float64 block sums are exact; int16 covers its whole range",
         "memory layouts: the library keeps the array it is given; no operation writes into it on HEAD, so read-only and broadcast sources must work for in-place variants too; 0-d datasets are not explored",
         "argument spellings: which spellings are accepted is the library's choice; a spelling must either raise and change nothing or give the bit-identical result of the canonical spelling",
+        "copies: copy.copy / copy.deepcopy / pickle / ds.copy() (save+load is not in the family); re-entrancy: the documented hook _copy_custom_attributes of a user subclass, called once per copying operation",
         "module state: every lattice item and every call history starts from a freshly re-executed quantem.core.datastructures.dataset (importlib.reload semantics); "
         "a lattice point that fails is re-judged alone on a fresh module and, if it passes there, reported as a dependence on earlier calls with the shortest history found",
     )
@@ -1669,6 +1941,13 @@ def run(ctx):
     if any(exl["layout_points_" + lay] < 500 for lay in LAYOUTS) or exl["spelling_accepted"] < 1000 or exl["spelling_rejected"] < 100:
         raise Broken("layout / spelling sub-lattices degenerate")
 
+    cshapes = [(4, 6), (4, 3, 2)] if quick else [(4, 6), (5, 4), (6,), (4, 3, 2), (2, 4, 2, 2)]
+    cdts = ["float64", "int16"] if quick else ["float64", "int16", "complex64", "float32"]
+    ctx.pmap(copies_item, [(sh, dt) for sh in cshapes for dt in cdts], chunk=1, label="copies", seed=ctx.seed)
+    ctx.pmap(reentrant_item, [(sh, dt) for sh in cshapes for dt in cdts], chunk=1, label="re-entrant", seed=ctx.seed)
+    if ctx.tally.extra["copies_points"] < 500 or ctx.tally.extra["reentrant_points"] < 100:
+        raise Broken("copies / re-entrant families degenerate")
+
     pitems = pad_items(quick)
     ctx.say(f"pad/crop: {len(pitems)} (shape, dtype) items")
     ctx.pmap(pad_item, pitems, chunk=1, label="pad-crop", seed=ctx.seed)
@@ -1710,6 +1989,17 @@ def run(ctx):
                 "spellings": "reducer in other letter cases; factors / out_shape / output_shape / pad_width / crop_widths / axes as list, ndarray, tuples of np.int64 / np.uint8 / 0-d arrays / np.float32 / Python floats, scalars as np.int64 / np.uint8 / np.float32 / np.float64 / 0-d array; factors vs out_shape form",
                 "oracle": "rejected (exception, dataset unchanged) or bit-identical to the canonical spelling",
             },
+            "copies": {
+                "copy_kinds": COPY_KINDS,
+                "first_ops": "bin(2), bin(2, axes=(0,), mean), fourier_resample(n+1), pad(n+3), crop(1 from the front) — in place and copying",
+                "applied_to": ["original", "copy"],
+                "follow_ups": "bin all axes, bin last axis mean in place, fourier_resample n+2, pad+crop — judged by the lattice oracles on the OTHER object",
+                "items": [[list(sh), dt] for sh in cshapes for dt in cdts],
+            },
+            "re_entrant": {
+                "hook": "_copy_custom_attributes of a user subclass",
+                "pairs": "every (outer, inner) in " + str(REENTRANT_OPS) + " squared; variants: hook runs the inner op on the source; two threads with the interleaving pinned by threading.Event; hook raises",
+            },
             "call_histories": {
                 "alphabet": [call_text(c) for c in halpha],
                 "histories": "every ordered pair of calls" + ("" if quick else " and every triple whose middle call is every third alphabet member") + "; quantem.core.datastructures.dataset re-imported before each; last call judged by the lattice oracles; every call also judged alone",
@@ -1744,6 +2034,16 @@ def run(ctx):
 def replay(ctx, case):
     op = case["op"]
     seed = ctx.seed
+    if op in ("copies", "reentrant"):
+        t = copies_item((case["shape"], case["dtype"]), seed=seed) if op == "copies" else reentrant_item((case["shape"], case["dtype"]), seed=seed)
+        from mc.harness import jsonable as _js
+
+        for f in t.fails:
+            if f["case"] == _js(case) or f["case"] == case:
+                print("  observed:", f["msg"])
+                ctx.fail(f["cls"], case, f["msg"])
+        print("  expected: " + ("the other object is bit-identical to what it was and still obeys the laws" if op == "copies" else "inner and outer results equal the two calls made one after the other; the source is unchanged"))
+        return
     if op == "layout":
         t = layout_item((case["op_kind"], case["shape"], case["dtype"]), seed=seed)
         for f in t.fails:
